@@ -264,7 +264,8 @@ def run(ctx, chk):
                 h, ln = cl.args[1], cl.args[2]
                 mc = [e for e in pa.events if e.kind == "call" and e.callee == "memcpy"]
                 okh = h[0] == "call" and h[1] == "_cbor_malloc"
-                okcpy = any(m.args[0] == h and m.args[2] == ln for m in mc)
+                okcpy = any(m.args[0] == h and m.args[2] == ln for m in mc) or \
+                    (not mc and (pa.st.eqc.get(ln) == 0 or pa.st.hi.get(ln, 1) == 0))   # nothing to copy for an empty string
                 # the allocation request equals the length
                 mal = [e for e in pa.events if e.kind == "call" and e.res == h]
                 okal = bool(mal) and mal[0].args[0] == ln
